@@ -40,6 +40,36 @@ NodeOf(cvs, t)  == LET mi == MultiOf(GShape(cvs), t) IN [k \in 1..Len(cvs) |-> c
 \* "creating an element from a callable yields exactly the callable's values at the grid points"
 Sample(poly, cvs) == [t \in 1..GSize(cvs) |-> EvalPoly(poly, NodeOf(cvs, t - 1))]
 
+(* ------------------------- value types (dtype classes) -------------------- *)
+(* "exactly the callable's values" in a space of a given value type: the exact value, rounded to   *)
+(* the precision of the type.  dt \in {"int", "f32", "f64", "c64", "c128"}.  Values here are dyadic  *)
+(* with < 31 bits, so f64 / c128 hold them exactly; f32 / c64 keep 24 significant bits, round to   *)
+(* nearest, ties to even (IEEE); an integer type holds a value only if it is an integer.           *)
+RECURSIVE BitLen(_)
+BitLen(n) == IF n = 0 THEN 0 ELSE 1 + BitLen(n \div 2)
+RECURSIVE Pow2(_)
+Pow2(d) == IF d = 0 THEN 1 ELSE 2 * Pow2(d - 1)
+Round24(q) ==
+  LET a == Abs(q[1])  m == BitLen(a)
+  IN  IF m <= 24 THEN q
+      ELSE LET P == Pow2(m - 24)  r == a % P  t == a \div P
+               up == (2 * r > P) \/ (2 * r = P /\ t % 2 = 1)
+               t2 == IF up THEN t + 1 ELSE t
+           IN  QNorm((IF q[1] < 0 THEN -1 ELSE 1) * t2 * P, q[2])
+CastQ(dt, q) == IF dt \in {"f32", "c64"} THEN Round24(q) ELSE q
+CastC(dt, z) == <<CastQ(dt, z[1]), CastQ(dt, z[2])>>
+\* is the value of the callable representable at all in the type (otherwise the statement is silent)
+CastDefined(dt, z) == CASE dt = "int" -> z[1][2] = 1 /\ z[2] = QZero
+                        [] dt \in {"f32", "f64"} -> z[2] = QZero
+                        [] OTHER -> TRUE
+\* function descriptors: polynomial, or the piecewise  x -> 0 if x_1 < theta else x_1
+FnEval(fn, x) == IF fn.kind = "poly" THEN EvalPoly(fn.poly, x)
+                 ELSE IF QLt(x[1], fn.theta) THEN CZero ELSE CR(x[1])
+SampleFn(fn, cvs) == [t \in 1..GSize(cvs) |-> FnEval(fn, NodeOf(cvs, t - 1))]
+\* THE history-free statement: what a call in value type dt must return, whatever was called before
+ExpectCall(fn, cvs, dt) == [t \in 1..GSize(cvs) |-> CastC(dt, SampleFn(fn, cvs)[t])]
+DefinedCall(fn, cvs, dt) == [t \in 1..GSize(cvs) |-> CastDefined(dt, SampleFn(fn, cvs)[t])]
+
 (* ------------------------- one axis -------------------------------------- *)
 First(cv) == cv[1]
 Last(cv)  == cv[Len(cv)]
